@@ -86,6 +86,14 @@ def check_conformance(case, acc, sigp='c02'):
         except iso_ref.RefError as ex:
             acc.viol(sigp + '.encode.unreadable', case, str(ex), 'a message of the documented layout')
             return
+        # ... but the sub-elements must sit in elements that ARE PDS carriers under the configuration in force:
+        # an independent reading of the bytes has to find every PDSxxxx that was given
+        for k, v in msg.items():
+            if k.startswith('PDS') and want.get(k) != v:
+                acc.viol(sigp + '.encode.pds_not_in_carrier', case, '%s=%r in the reading of the produced bytes' % (
+                    k, want.get(k, '<absent>')), '%s=%r' % (k, core.short(v, 60)),
+                    'PDS data was not placed in the elements configured as PDS carriers')
+                return
         ref = data
     if data != ref:
         hdr_end = 36 if hx else 20
